@@ -21,6 +21,7 @@ import Retro.Props.C15.ClosedPoles
 import Retro.Props.C15.ClosedCones
 import Retro.Props.C15.ClosedTorus
 import Retro.Props.C15.ClosedEulerMore
+import Retro.Props.C15.ClosedEulerCones
 import Mathlib.Tactic.Ring
 import Mathlib.Tactic.LinearCombination
 import Mathlib.Algebra.Field.Basic
